@@ -52,7 +52,9 @@ func sizeText(r *lib.Rng, n int64) string {
 	return r.Pick(forms)
 }
 
-func e(scope string, size int64) entry { return entry{Scope: scope, Size: size, Text: fmt.Sprint(size)} }
+func e(scope string, size int64) entry {
+	return entry{Scope: scope, Size: size, Text: fmt.Sprint(size)}
+}
 
 func fixedTables() []table {
 	ts := []table{
@@ -541,10 +543,24 @@ func bodyLimits(c *lib.Ctx) {
 	for i := 0; i < 3000 && atomic.LoadInt64(&be.inflight) > 0; i++ {
 		time.Sleep(10 * time.Millisecond)
 	}
+	// judge one over-limit case per (site kind, framing) first, so that the
+	// few witnesses kept per violation key cover the different proxy paths
+	var order, rest []*bcase
+	firstOf := map[string]bool{}
 	for _, cs := range cases {
 		if cs.Kind == kDirect || cs.CliErr != "" {
 			continue
 		}
+		k := fmt.Sprintf("%s/%v", cs.Kind, cs.Chunk == 0)
+		if len(cs.Allowed) > 0 && overAll(cs.Len, cs.Allowed) && !firstOf[k] {
+			firstOf[k] = true
+			order = append(order, cs)
+		} else {
+			rest = append(rest, cs)
+		}
+	}
+	sort.SliceStable(order, func(i, j int) bool { return (order[i].Chunk == 0) && (order[j].Chunk != 0) })
+	for _, cs := range append(order, rest...) {
 		judgeProxy(c, cs, be.take(cs.Rid), pool)
 	}
 	total := c.Get("body_cases_judged")
